@@ -467,8 +467,10 @@ def coq_eval(ctx: Ctx, imports: str, exprs: list[str], prelude: str = "", shard:
 
     def launch(k):
         f = files[k]
+        fo = open(f.with_suffix(".out"), "w")
+        fe = open(f.with_suffix(".err"), "w")
         return subprocess.Popen(["timeout", str(timeout), "coqc", "-Q", str(THEORIES), "PTN", "-o", str(f.with_suffix(".vo")), str(f)],
-                                stdout=subprocess.PIPE, stderr=subprocess.PIPE, text=True)
+                                stdout=fo, stderr=fe, text=True)
     pending = list(range(len(shards)))
     running = {}
     while pending or running:
@@ -478,7 +480,8 @@ def coq_eval(ctx: Ctx, imports: str, exprs: list[str], prelude: str = "", shard:
         done = []
         for k, p in running.items():
             if p.poll() is not None:
-                out, err = p.communicate()
+                out = files[k].with_suffix(".out").read_text()
+                err = files[k].with_suffix(".err").read_text()
                 results[k] = (p.returncode, out, err)
                 done.append(k)
         for k in done:
